@@ -69,4 +69,19 @@ var props = []Prop{
 		Bounds:  "6 relation prefixes (two parents, dead target with children, retired table, two relation types, dead target whose id was re-issued, plain tables) x 1 symbolic operation out of 8 kinds: creation with target (ids / values), Relations.Set, Relations.Exchange, Builder.Add (ids / values), NewBatch(Q) with target, batch SetRelation (4 API variants), Relations.ExchangeBatch(Q), relation calls naming the wrong component (every component incl. ID 0; Get / Set / Query.Relation), plain Exchange (relation swap/removal); the target ranges over zero, every alive handle, every dead handle, the dead handle of a re-issued id and the entity itself; legality and effect per the documentation; 3 configurations (thorough 24)",
 		Outside: "two or more relation operations in a row beyond the scripted prefixes (C01's two-step harness covers pairs of single-entity operations); more than 10 entities",
 	},
+	{
+		ID: "C06",
+		Harnesses: []H{{Pkg: "ecs", Fn: "HC06_TargetDeath"}, {Pkg: "ecs", Fn: "HC06_TargetDeath", Tags: "tiny", Tier: "thorough"}},
+		Conform: []H{{Pkg: "ecs", Fn: "HSmoke"}, {Pkg: "ecs", Fn: "HConf_Prefixes"}},
+		Bounds:  "8 prefixes (two parents with children, dead target with non-empty table, retired table, two relation types, dead target with re-issued id, self-targeting entity, alive parent with active-but-empty child table, Reset over populated relation tables followed by new parents) x 1 (thorough: 2) symbolic operations out of RemoveEntity(any alive), Batch.RemoveEntities (All / mask / relation filter with any target), creation of a child (ids only or with values) for zero or any alive parent, Relations.Set, Reset, batch SetRelation; after every step the structural invariant (free list without duplicates, target map = active tables, storage beyond len zero, retired tables empty and zeroed), at the end all observables vs the model incl. zero-initialised components and relation queries for every target; 3 configurations (thorough 24)",
+		Outside: "more than 2 operations after the prefix; more than 10 entities",
+	},
+	{
+		ID: "C07",
+		Harnesses: []H{{Pkg: "ecs", Fn: "HC07_Before"}, {Pkg: "ecs", Fn: "HC07_After"}, {Pkg: "ecs", Fn: "HC07_Unregister", W: 4},
+			{Pkg: "ecs", Fn: "HC07_Before", Tags: "tiny", Tier: "thorough"}, {Pkg: "ecs", Fn: "HC07_After", Tags: "tiny", Tier: "thorough"}},
+		Conform: []H{{Pkg: "ecs", Fn: "HSmoke"}, {Pkg: "ecs", Fn: "HConf_Prefixes"}},
+		Bounds:  "filter registered before any table exists (relation targets = handles issued later) or after one of 11 prefixes (incl. retired tables, dead targets, re-issued target ids, self-target, Reset over populated relation tables); 9 filter kinds (All, mask, without, exclusive, relation filters with any issued/zero/future target, and a relation filter whose component filter also matches non-relation tables); then 1 operation out of 10: table creation, relation-table creation, RemoveEntity, Relations.Set, Reset, Reset + re-issue + new child, and Batch.RemoveEntities / Batch.Exchange(Q) / Batch.SetRelation(Q) THROUGH the registered filter; oracle: registered vs original filter on the same world (same entities, same Count), model for batch effects, cache clauses of the structural invariant; Unregister/double register/use after unregister on 3 registrations; 2 configurations (thorough 24)",
+		Outside: "more than one operation after registration beyond the prefixes; logic-combination filters (the cache only calls Matches, decided in C04)",
+	},
 }
